@@ -29,6 +29,7 @@ DEV_BREAKS = {"NoTypeTest": ("TPlain",), "BuiltinsFirst": ("TPlain",), "FirstMat
 BUILTIN_POOL = [dict(name="x", cls="Sub1"), dict(name="y", cls="Other")]
 BUILTIN_SETS = [[], [BUILTIN_POOL[0]], [BUILTIN_POOL[1]], BUILTIN_POOL]
 USER_CLASSES = ["Sub1", "Other"]
+NAMETYPES = ["ID", "INT", "STRING"]
 
 _UNKNOWN = re.compile(r'^Unknown object "(.*)" of class "(.*)"$')
 _NOTUNIQUE = re.compile(r"^name (.*) is not unique\.$")
@@ -48,45 +49,55 @@ class Real:
 
     def __init__(self, mm):
         self.mm = mm
-        self.grammar = nav.grammar_of(mm)
         self.cache = {}
         self.failures = {}
 
-    def metamodel(self, variant, B):
+    def metamodel(self, variant, B, nametype):
+        """(meta-model, {abstract builtin name: object}).  The builtins dict is keyed by the value textX
+        gives a reference text of that name (0 for INT names, "" for the empty STRING name)."""
         from textx import metamodel_from_str
-        key = (variant, common.canon(B))
+        key = (variant, common.canon(B), nametype)
         if key in self.cache and self.failures.get(key, 0) < 400:
             return self.cache[key]
+        grammar = nav.grammar_of(self.mm, nametype)
+        val = {b["name"]: nav.name_value(nametype, b["name"]) for b in B}
         if variant == "user":
             # builtins are instances of user classes registered for their rules
             classes = {n: _user_class(n) for n in USER_CLASSES}
-            objs = {b["name"]: classes[b["cls"]](name=b["name"]) for b in B}
-            m = metamodel_from_str(self.grammar, classes=list(classes.values()), builtins=objs)
+            objs = {b["name"]: classes[b["cls"]](name=val[b["name"]]) for b in B}
+            m = metamodel_from_str(grammar, classes=list(classes.values()),
+                                   builtins={val[n]: o for n, o in objs.items()})
         else:
             # builtins are instances of the dynamically created classes of a second meta-model of the same grammar
-            donor = metamodel_from_str(self.grammar)
+            donor = metamodel_from_str(grammar)
             objs = {}
             for b in B:
                 o = donor[b["cls"]]()
-                o.name = b["name"]
+                o.name = val[b["name"]]
                 objs[b["name"]] = o
-            m = metamodel_from_str(self.grammar, builtins=objs)
+            m = metamodel_from_str(grammar, builtins={val[n]: o for n, o in objs.items()})
         nav.check_metamodel(self.mm, m)
         self.cache[key] = (m, objs)
         self.failures[key] = 0
         return self.cache[key]
 
-    def observe(self, g, B, variant):
+    def observe(self, g, B, variant, nametype="ID"):
         from textx.const import UNKNOWN_OBJ_ERROR
         from textx.exceptions import TextXSemanticError, TextXSyntaxError
-        m, objs = self.metamodel(variant, B)
-        text = nav.render(self.mm, g)
+        m, objs = self.metamodel(variant, B, nametype)
+        text = nav.render(self.mm, g, nametype)
+
+        def shown(txt):
+            """abstract name for the text an error message shows"""
+            nm = nav.name_of_message(nametype, txt)
+            return nm if nm is not None else "?" + txt
+
         try:
             model = m.model_from_str(text)
         except TextXSyntaxError as e:
             raise tlc.MachineryError(f"rendered model is not a sentence of the carrier grammar: {e}\n{text}")
         except TextXSemanticError as e:
-            key = (variant, common.canon(B))
+            key = (variant, common.canon(B), nametype)
             self.failures[key] = self.failures.get(key, 0) + 1
             msg = e.message
             u, nu = _UNKNOWN.match(msg), _NOTUNIQUE.match(msg)
@@ -95,9 +106,9 @@ class Real:
                 cls = getattr(getattr(e, "expected_obj_cls", None), "__name__", None)
                 if cls != u.group(2):
                     k += f"(expected_obj_cls={cls})"
-                return dict(ok=False, err=dict(k=k, name=u.group(1), cls=u.group(2))), text
+                return dict(ok=False, err=dict(k=k, name=shown(u.group(1)), cls=u.group(2))), text
             if nu:
-                return dict(ok=False, err=dict(k="notunique", name=nu.group(1), cls="-")), text
+                return dict(ok=False, err=dict(k="notunique", name=shown(nu.group(1)), cls="-")), text
             return dict(ok=False, err=dict(k="other: " + msg[:200], name="", cls="")), text
         except Exception as e:
             return dict(ok=False, err=dict(k=f"!{type(e).__name__}: {str(e)[:200]}", name="", cls="")), text
@@ -148,14 +159,14 @@ def _n_refs(g):
 
 
 def _conform(rep, reals, items, devs, label):
-    """items: list of (mm_name, mm, g, B, variant)."""
+    """items: list of (mm_name, mm, g, B, variant, nametype)."""
     by_mm = {}
     for it in items:
         by_mm.setdefault(it[0], []).append(it)
     for mm_name, its in by_mm.items():
         mm = its[0][1]
         cases, keyof = [], {}
-        for _, _, g, B, variant in its:
+        for _, _, g, B, variant, nametype in its:
             key = common.digest([g, B])
             if key not in keyof:
                 keyof[key] = f"c{len(cases)}"
@@ -163,17 +174,17 @@ def _conform(rep, reals, items, devs, label):
         answers, st = nav.ask(mm, cases)
         rep.add_oracle(f"NavOracle[{label},{mm_name}]", st)
         failed = []
-        for _, _, g, B, variant in its:
+        for _, _, g, B, variant, nametype in its:
             ans = answers[keyof[common.digest([g, B])]]
             if not ans.get("wf"):
                 raise tlc.MachineryError(f"harness produced a graph Nav.tla does not accept as well-formed: {g}")
-            obs, text = reals[mm_name].observe(g, B, variant)
-            small = dict(variant=variant, builtins=[b["name"] for b in B], text=text)
+            obs, text = reals[mm_name].observe(g, B, variant, nametype)
+            small = dict(variant=variant, names=nametype, builtins=[b["name"] for b in B], text=text)
             nontrivial = _n_refs(g) >= 1 and any(g["name"])
             if _verdict(obs, ans):
                 rep.passed(small, nontrivial)
             else:
-                failed.append((g, B, variant, obs, ans, text))
+                failed.append((g, B, variant + "/" + nametype, obs, ans, text))
         # cases the documented semantics does not explain: try the listed deviations only
         dev_answers = {}
         if failed and devs:
@@ -187,12 +198,13 @@ def _conform(rep, reals, items, devs, label):
             if hit:
                 rep.known_finding(hit, dict(variant=variant, text=text))
             else:
-                rep.violation(dict(mm=mm, case=dict(g=g, B=B, variant=variant, text=text), observed=obs,
+                rep.violation(dict(mm=mm, case=dict(g=g, B=B, variant=variant.split("/")[0],
+                                                    nametype=variant.split("/")[1], text=text), observed=obs,
                                    expected=dict(ok=ans["ok"], errs=ans["errs"], res=ans["res"])), _why(obs, ans))
 
 
 def _random_model(rng, mm):
-    pool = ["x", "y", "z", "w", "v", "u", "t", "s"][:rng.randint(2, 8)]
+    pool = nav.NAME_POOL[:rng.randint(2, 8)]
     g = nav.random_graph(rng, mm, rng.randint(6, 30), names=pool)
     g = nav.renumber(g, order_rng=rng)
     for o in range(1, nav.n_objs(g) + 1):
@@ -226,7 +238,10 @@ def run(rep):
                 "compared with Nav.tla. I->S: seeded-random nested models of 6-30 objects. One case = (model, "
                 "builtins, variant); non-trivial: >= 1 reference and >= 1 named object; distinct by content.")
     rep.assumptions = [
-        "names are strings matched by ID; every reference uses the default provider (no scope providers registered, no RREL)",
+        "every reference uses the default provider (no scope providers registered, no RREL); names are written as ID, "
+        "as INT (`name=INT`, `[T|INT]`; the name x is 0) or as STRING (x is the empty string): the same abstract "
+        "model in three carrier variants; builtins are keyed by the converted value",
+        "rule hierarchy of the carrier: Base = Sub1 | Sub2; Any = Base | Alt; Alt = Any | Sub2 | Other (diamond and cycle)",
         "a load with several failing references may report any one of them (the order of resolution is not part of the property)",
         "an Unknown-object error is identified by its message `Unknown object \"<name>\" of class \"<rule>\"`, "
         "err_type UNKNOWN_OBJ_ERROR and expected_obj_cls; a non-unique error by `name <name> is not unique.`",
@@ -268,8 +283,9 @@ def run(rep):
                 if quick and bi != i % 4 and bi != 3:   # quick: two builtins sets per model (one rotating, and both)
                     continue
                 variants = ("user", "donor") if (not quick and ui == 0) else (("user", "donor")[(i + bi) % 2],)
-                for v in variants:
-                    items.append((u[0], mm, g2, B, v))
+                for vi, v in enumerate(variants):
+                    # how names are written: ID, INT (x is 0) or STRING (x is the empty string)
+                    items.append((u[0], mm, g2, B, v, NAMETYPES[(i // 2 + bi + vi) % 3]))
     _conform(rep, reals, items, devs, "enumerated")
     rep.exhaustive = not quick
     rep.bounds["enumerated"] = dict(models=total, cases=len(items), builtins_sets=4,
@@ -281,7 +297,7 @@ def run(rep):
     items = []
     for i in range(count):
         g = _random_model(rng, mm7)
-        items.append(("MM7", mm7, g, rng.choice(BUILTIN_SETS), rng.choice(("user", "donor"))))
+        items.append(("MM7", mm7, g, rng.choice(BUILTIN_SETS), rng.choice(("user", "donor")), rng.choice(NAMETYPES)))
     _conform(rep, reals, items, devs, "random")
     rep.bounds["random"] = dict(models=count, objects="6..30", names="2..8")
 
@@ -291,9 +307,9 @@ def replay(path):
         rec = json.load(f)
     c = rec["case"]
     mm, case = c["mm"], c["case"]
-    print(case["text"], "builtins:", case["B"], "variant:", case["variant"])
+    print(case["text"], "builtins:", case["B"], "variant:", case["variant"], "names:", case.get("nametype", "ID"))
     answers, _ = nav.ask(mm, [dict(id="c0", kind="plain", g=case["g"], B=case["B"])])
-    obs, _ = Real(mm).observe(case["g"], case["B"], case["variant"])
+    obs, _ = Real(mm).observe(case["g"], case["B"], case["variant"], case.get("nametype", "ID"))
     print("observed:", obs)
     print("Nav.tla :", {k: answers["c0"][k] for k in ("ok", "errs", "res")})
     if _verdict(obs, answers["c0"]):
